@@ -605,3 +605,25 @@ pub fn eval_nostd_lib(tag: &str, units: &[Unit], so: &Path) -> Vec<UnitOutcome> 
     }
     outcomes
 }
+
+/// Run a batch program under Miri (thorough tiers). Returns (stdout, stderr, success).
+pub fn miri_run(tag: &str, units: &[Unit]) -> Result<(String, String, bool), Inconclusive> {
+    let dir = work_dir(tag);
+    let _ = std::fs::create_dir_all(dir.join("src"));
+    let _ = std::fs::create_dir_all(dir.join(".cargo"));
+    for f in ["Cargo.toml", "Cargo.lock", ".cargo/config.toml"] {
+        std::fs::copy(Path::new(VERIF).join("miri").join(f), dir.join(f)).map_err(|e| Inconclusive(format!("miri template: {e}")))?;
+    }
+    let prog = render_program(units, "");
+    std::fs::write(dir.join("src").join("main.rs"), &prog.src).map_err(|e| Inconclusive(format!("write: {e}")))?;
+    let out = Command::new("cargo")
+        .args(["+nightly", "miri", "run", "--quiet"])
+        .env("CARGO_NET_OFFLINE", "true")
+        .env("MIRIFLAGS", "-Zmiri-disable-isolation")
+        .env("CARGO_TARGET_DIR", Path::new(VERIF).join("target").join(format!("miri-{}", tag.replace('/', "_"))))
+        .env_remove("RUSTFLAGS")
+        .current_dir(&dir)
+        .output()
+        .map_err(|e| Inconclusive(format!("cargo +nightly miri is not available: {e}")))?;
+    Ok((String::from_utf8_lossy(&out.stdout).to_string(), String::from_utf8_lossy(&out.stderr).to_string(), out.status.success()))
+}
